@@ -165,6 +165,24 @@ Proof.
     exists from, (p_backoff p'). exact E.
 Qed.
 
+(* EXPECTED: for a child that exited (no signal) with status n in 0..255, finish()
+   judges the status n itself - in particular 128..255 are not folded onto 0..127 -
+   and a child killed by a signal is never `expected` unless -1 is listed *)
+Theorem exit_status_true : forall n (core : bool), 0 <= n < 256 ->
+  wait_exit_status (n * 256) = n /\
+  forall sig, 0 < sig < 128 -> wait_exit_status (n * 256 + (if core then 128 else 0) + sig) = -1.
+Proof.
+  intros n core Hn. unfold wait_exit_status. split.
+  - replace ((n * 256) mod 128) with 0 by (replace (n * 256) with ((n * 2) * 128) by lia; symmetry; apply Z.mod_mul; lia).
+    cbn [Z.eqb]. rewrite Z.div_mul by lia. apply Z.mod_small. assumption.
+  - intros sig Hs.
+    assert (E : (n * 256 + (if core then 128 else 0) + sig) mod 128 = sig).
+    { destruct core.
+      - replace (n * 256 + 128 + sig) with (sig + (n * 2 + 1) * 128) by lia. rewrite Z.mod_add by lia. apply Z.mod_small. lia.
+      - replace (n * 256 + 0 + sig) with (sig + (n * 2) * 128) by lia. rewrite Z.mod_add by lia. apply Z.mod_small. lia. }
+    rewrite E. replace (sig =? 0) with false by (symmetry; apply Z.eqb_neq; lia). reflexivity.
+Qed.
+
 (* ------------------------------------------------------------ histories *)
 
 Definition step_expected (s : pstep) : bool :=
